@@ -51,6 +51,8 @@ func __forallkeys[K comparable, V any](m map[K]V, f func(K) bool) bool { return 
 func __haskey[K comparable, V any](m map[K]V, k K) bool  { _, ok := m[k]; return ok }
 func __visited(k any) bool                               { return true }
 func __forallcells[T any](f func(T) bool) bool           { return true }
+func __samecontent(a, b any) bool                        { return true }
+func __samemap(a, b any) bool                            { return true }
 func __rlocks(mu any) int                                { return 0 }
 func __wlocked(mu any) bool                              { return false }
 `
